@@ -111,7 +111,9 @@ class Model:
         self.S = [0, _sum(self.L[:1]), _sum(self.L[:2]), _sum(self.L[:3])]
         self.method = _Tok("method")
         self.code = _Tok("method.get_code()")
-        self.dcode = _Tok("method.get_code().get_bc()")
+        # the DCode of the model method is a real (abstract) DCode object: methods a refactoring adds to DCode are executed;
+        # get_instructions / get_ins_off are answered by the model (hooks)
+        self.dcode = Obj(self.dexm.cls("DCode"), "method.get_code().get_bc()")
         self.positive = {s: 2 for s in self.L if isinstance(s, Sym)}  # lower bounds of symbols (lengths are >= 2 bytes)
         self.symbols = {s for s in self.L if isinstance(s, Sym)}
         self.lookups = []
@@ -226,7 +228,9 @@ class Model:
                 return self.payload
             if name == "get_instructions":
                 return list(self.ins)
-            return Sym("dcode.%s" % name)
+            recv.attrs["cached_instructions"] = list(self.ins)
+            recv.attrs.setdefault("idx", 0)
+            return NotImplemented
         if isinstance(recv, Obj) and recv.cls is not None and recv.cls.name == "DCode" and name == "get_instructions":
             return list(self.ins)
         if isinstance(recv, Obj) and recv.name == "payload":
